@@ -9,6 +9,8 @@ import (
 	"time"
 
 	"simrt"
+
+	"github.com/jwhited/corebgp"
 )
 
 // Violation is an oracle failure. Sig is the stable signature
@@ -57,6 +59,10 @@ type World struct {
 	MaxSteps  int
 	Horizon   time.Duration
 	NoStall   bool
+	// SlowLogger accounting
+	LogLines int
+	LogSlept time.Duration
+	inLogger int
 
 	deadlines []time.Time
 	rootDone  bool
@@ -253,7 +259,14 @@ func (w *World) WaitUntil(site string, timeout time.Duration, cond func() bool) 
 // Quiesce blocks until no other task is runnable and no event is due at the
 // current instant: every corebgp goroutine sits in a state-level wait.
 func (w *World) Quiesce() {
-	simrt.WaitCond("quiesce", "quiesce", func() bool { return true })
+	for {
+		simrt.WaitCond("quiesce", "quiesce", func() bool { return true })
+		if w.inLogger == 0 {
+			return
+		}
+		// a corebgp goroutine is blocked inside the user's Logger: not a state-level wait
+		simrt.WaitCond("quiesce.logger", "cond", func() bool { return w.inLogger == 0 })
+	}
 }
 
 // Call is a recorded API invocation running in its own task.
@@ -392,9 +405,12 @@ func (w *World) loop() {
 		opts := run
 		if len(opts) == 0 {
 			// a quiescent point: every corebgp goroutine sits in a state-level wait
-			w.mu.Lock()
-			w.LastQuiesceSeq = w.seq
-			w.mu.Unlock()
+			// (unless one of them is blocked inside the user's Logger)
+			if w.inLogger == 0 {
+				w.mu.Lock()
+				w.LastQuiesceSeq = w.seq
+				w.mu.Unlock()
+			}
 			opts = quiesce
 		}
 		if len(opts) == 0 {
@@ -420,6 +436,14 @@ func (w *World) loop() {
 			}
 			left := w.Horizon - now.Sub(w.T0)
 			if left <= 0 {
+				// a harness task stuck inside corebgp (an API call that never returned;
+				// Serve is allowed to block) is a wedge, anything else a scenario bug
+				for _, t := range w.S.AliveTasks() {
+					if !t.Lib && t.State() == simrt.StBlocked && strings.Contains(t.Site, ".go:") && t.Label != "api:Serve" {
+						w.Violate(w.Prop+"/api-call-never-returned/"+siteFile(t.Site), "task %s (%s) has been blocked inside corebgp at %s until the end of simulated time; alive: %s", t.ID, t.Label, t.Site, w.aliveSummary())
+						return
+					}
+				}
 				w.HarnessError("horizon reached (%v) with the scenario still running; alive: %s", w.Horizon, w.aliveSummary())
 				return
 			}
@@ -550,4 +574,41 @@ type RunResult struct {
 	TapeN      []uint32
 	TapeV      []uint32
 	Diverged   bool
+}
+
+func siteFile(site string) string {
+	if i := strings.Index(site, ":"); i > 0 {
+		return site[:i]
+	}
+	return site
+}
+
+// SlowLogger installs a corebgp Logger (user code the peer manager calls on
+// every transition, error and damping decision) that sometimes yields and
+// sometimes blocks for up to maxMS of virtual time: the peer manager is then
+// busy while its FSMs and the server keep running. LogSlept accumulates the
+// time spent blocking so that upper-bound timing oracles can allow for it.
+// RunOne removes the logger after the run.
+func (w *World) SlowLogger(maxMS int) {
+	corebgp.SetLogger(func(v ...interface{}) {
+		w.mu.Lock()
+		done := w.done
+		w.mu.Unlock()
+		if done || simrt.Active() == nil {
+			return
+		}
+		_ = fmt.Sprint(v...)
+		w.LogLines++
+		switch w.Draw(5, "logger") {
+		case 3:
+			w.Yield("logger")
+		case 4:
+			d := time.Duration(w.Range(1, maxMS, "loggerms")) * time.Millisecond
+			w.Fault("slow-logger")
+			w.LogSlept += d
+			w.inLogger++
+			w.Sleep(d)
+			w.inLogger--
+		}
+	})
 }
